@@ -230,4 +230,19 @@ var props = []propCfg{
 		LevelNote: "Trusted: the printer keeps the block structure for every layout plan (it is also exercised by C01, whose programs use the canonical plan).",
 		DesignRef: "DESIGN.md section 4, C06",
 	},
+	{
+		ID: "C07", Pkg: "props/c07", Needs: []string{"fc"},
+		Tests: []testCfg{
+			{Name: "TestHistories", Rapid: true, Quick: 800, Thorough: 24000, ShardsQ: 16, ShardsT: 16},
+		},
+		Rule:      "a generated program (full profile, 1..4 units) is a sequence of top-level items (type declarations, prelude functions, helper/entry functions, main) with a reference relation computed from the identifiers each item mentions. rapid draws a history transformation: delete a random set of items nothing kept refers to; emit the kept items in a different topological order; merge in the items of an independently generated unrelated program (own types, matches, lambdas, _.Field, disjoint names) at random positions; cut the sequence into 2..4 files placed in different directories and passed to one fc invocation in order, a cut consisting only of type declarations optionally becoming a .foi file. Oracle: both runs exit 0; the files written are exactly gen_<base>.go next to each .fo argument and nothing for .foi; every Go declaration (func, type, var, method; found with go/parser) that occurs in both runs is identical after renaming compiler temporaries _vN per declared object (parser scope resolution) in order of first occurrence. Non-trivial = a non-identity transformation with at least one kept function that contains a match, a _.Field shorthand or a generic instantiation; distinct = hash of the case.",
+		Technique: "metamorphic property-based testing (rapid) over definition histories: transformations of the top-level item sequence must leave each surviving definition's Go unchanged",
+		Assumptions: []string{
+			"later files see earlier files' definitions; files are passed in dependency order",
+			"declarations are compared through go/printer after temp renaming (layout of the emitted text is not part of this property)",
+		},
+		LevelText: "Generated histories of the single long-lived parse state (what was processed before a definition) with an oracle that compares fc with itself on purpose; hundreds (quick) to tens of thousands (thorough) of transformed programs. Exploration.",
+		LevelNote: "Trusted: go/parser's local scope resolution for the _vN renaming; the identifier-based reference relation (a superset of the real one, so transformations never separate a definition from something it needs).",
+		DesignRef: "DESIGN.md section 4, C07",
+	},
 }
